@@ -154,3 +154,20 @@ Global Arguments cAMP : simpl never.
 Global Arguments cLT : simpl never.
 Global Arguments cGT : simpl never.
 Global Arguments cQUOT : simpl never.
+
+(* str.splitlines(): the line boundaries of CPython (LF, CR, CRLF, VT, FF, FS, GS, RS, NEL, LS, PS); no empty
+   piece after a final boundary *)
+Definition is_linesep (c : Z) : bool :=
+  ((c =? 10) || (c =? 13) || (c =? 11) || (c =? 12) || (c =? 28) || (c =? 29) || (c =? 30) || (c =? 133) || (c =? 8232) || (c =? 8233))%Z.
+Fixpoint splitlines_aux (s : str) (cur : str) : list str :=
+  match s with
+  | [] => match cur with [] => [] | _ => [rev cur] end
+  | c :: r =>
+    if (c =? 13)%Z then
+      match r with
+      | c2 :: r' => if (c2 =? 10)%Z then rev cur :: splitlines_aux r' [] else rev cur :: splitlines_aux r []
+      | [] => [rev cur]
+      end
+    else if is_linesep c then rev cur :: splitlines_aux r [] else splitlines_aux r (c :: cur)
+  end.
+Definition splitlines (s : str) : list str := splitlines_aux s [].
